@@ -97,7 +97,12 @@ fn scenario(b: &Base, shape: Shape, fault: Option<(usize, Variant)>) -> (History
     let mut p = build_project(&b.p0);
     let mut steps = vec![StepSpec {
         project: p.printed(),
-        mode: if b.s0_by_cli && shape == Shape::FirstCompile { Mode::FreshCli } else { Mode::FreshState },
+        // S0 compiled by a CLI process only in the scenarios that use the CLI anyway (cost)
+        mode: if b.s0_by_cli && shape == Shape::FirstCompile && matches!(fault, Some((_, Variant::TruncatedKilledFreshCli))) {
+            Mode::FreshCli
+        } else {
+            Mode::FreshState
+        },
         fault: None,
         kill_after: false,
     }];
@@ -187,9 +192,9 @@ pub fn run(args: &Args) {
         args,
         "fault_enumeration",
         "per base case (initial directory, S0, edit, later edits): every operation index k of the interrupted \
-         compile's write plan (sampled above 64 operations) x 4 fault flavours (error before the operation / \
-         truncated write, recovery in the same session; process killed, recovery by a fresh CompilerState / a \
-         fresh CLI process) x 2 plan kinds (diff plan of a later compile, rewrite-everything plan of a first \
+         compile's write plan (sampled above 64 operations) x fault flavours (error before the operation / \
+         truncated write, recovery in the same session; process killed, recovery by a fresh CompilerState; \
+         and for the first, middle and last k: truncated write + process killed, recovery by a fresh CLI process) x 2 plan kinds (diff plan of a later compile, rewrite-everything plan of a first \
          compile); non-trivial = the interrupted plan had >= 2 operations, the fault was not at k = 0, and the \
          fault fired; distinct by the whole scenario (sources of every step, modes, fault)",
     );
@@ -209,7 +214,7 @@ pub fn run(args: &Args) {
     }
     report.run_regressions(|v| replay_input(v, &base_dir));
 
-    let n_bases = args.tier.pick(40, 1600);
+    let n_bases = args.tier.pick(16, 640);
     let bases = vcore::generate_values(vcore::derive_seed(report.seed, "c19-bases", 0), n_bases, &base_seed());
     let workers = vcore::num_workers();
     let mut all: Vec<ScenarioResult> = vec![];
@@ -224,11 +229,11 @@ pub fn run(args: &Args) {
                     let mut out: Vec<ScenarioResult> = vec![];
                     let mut lens = vec![];
                     'bases: for (bi, b) in bases.iter().enumerate() {
-                        if bi % workers != w {
-                            continue;
-                        }
-                        let mut si = 0usize;
-                        for shape in [Shape::LaterCompile, Shape::FirstCompile] {
+                        for (shi, shape) in [Shape::LaterCompile, Shape::FirstCompile].into_iter().enumerate() {
+                            if (bi * 2 + shi) % workers != w {
+                                continue;
+                            }
+                            let mut si = shi * 1_000_000;
                             // dry run: learn the length of the plan that will be interrupted
                             let (dry, _) = scenario(b, shape, None);
                             let n = match run_history(base_dir, &dry, Prop::C19) {
@@ -243,6 +248,11 @@ pub fn run(args: &Args) {
                             lens.push((bi, shape as usize, n));
                             for k in sample_ks(n) {
                                 for v in VARIANTS {
+                                    // a CLI process costs as much as dozens of in-process compiles:
+                                    // recovery by CLI is run for the first, middle and last k only
+                                    if *v == Variant::TruncatedKilledFreshCli && !(k == 0 || k + 1 == n || k == n / 2) {
+                                        continue;
+                                    }
                                     let (h, mut labels) = scenario(b, shape, Some((k, *v)));
                                     let r = run_history(base_dir, &h, Prop::C19);
                                     let mut l: Vec<String> = labels.drain(..).map(|s| s.to_string()).collect();
